@@ -60,6 +60,8 @@ class Monitor(object):
         self.multi = False
         self.pending = {}
         self.nframes = {}
+        self.recv_lo = {}          # connector id -> {counter: frames certainly received and to be counted}
+        self.recv_hi = {}          # connector id -> {counter: frames possibly counted}
 
     def fail(self, prop, what, key, extra=None):
         rp = {'cfg': self.conf, 'events': list(self.trace)}
@@ -84,8 +86,24 @@ class Monitor(object):
         if k == 'chunk':
             if sim.world.connectors[ev['c']].state in ('connected', 'closing') or True:
                 self.streams[ev['c']] = self.streams.get(ev['c'], b'') + bytes.fromhex(ev['hex'])
-            total = len(frames_of(self.streams[ev['c']]))
+            allfr = frames_of(self.streams[ev['c']])
+            total = len(allfr)
             nframes = total - self.nframes.get(ev['c'], 0) + 1     # +1: the frame that ends the stream with an error
+            # C18 bookkeeping: frames delivered while the connection was open are received messages.  When the
+            # connection is closed while handling this chunk, the frame that caused it (the first new one at least) was
+            # received, the ones behind it may not have been looked at.
+            if ev['c'] < len(prev['conns']) and prev['conns'][ev['c']] == 'connected':
+                newfr = allfr[self.nframes.get(ev['c'], 0):]
+                still = obs['conns'][ev['c']] == 'connected'
+                lo = self.recv_lo.setdefault(ev['c'], {})
+                hi = self.recv_hi.setdefault(ev['c'], {})
+                for i, (t, ln, body) in enumerate(newfr):
+                    n = STAT_KEY.get(t)
+                    if n is None:
+                        continue
+                    hi[n] = hi.get(n, 0) + 1
+                    if ln >= MINLEN[t] and (still or i == 0):
+                        lo[n] = lo.get(n, 0) + 1
             self.nframes[ev['c']] = total
             reports = [o for o in outs if o[0] == 'handler' and o[1] in ('update', 'update_error', 'open', 'keepalive',
                                                                       'notification', 'route_refresh')]
@@ -171,23 +189,14 @@ class Monitor(object):
                     self.fail('C18', 'sent counter %s=%d but %d such messages were written' % (
                         name, obs['stats']['send'].get(name, 0), sent.get(name, 0)), 'sent-counter')
                     break
-            if obs['conns'][obs['proto']] == 'connected':
-                fr = frames_of(self.streams.get(obs['proto'], b''))
-                lo, hi = {}, {}
-                for t, ln, body in fr:
-                    n = STAT_KEY.get(t)
-                    if n is None:
-                        continue
-                    hi[n] = hi.get(n, 0) + 1
-                    if ln >= MINLEN[t]:
-                        lo[n] = lo.get(n, 0) + 1
-                for name in ('Opens', 'Notifications', 'Updates', 'Keepalives', 'RouteRefresh'):
-                    v = obs['stats']['receive'].get(name, 0)
-                    if not (lo.get(name, 0) <= v <= hi.get(name, 0)):
-                        if not any(o[0] == 'unmodelled' for o in outs):
-                            self.fail('C18', 'received counter %s=%d but %d..%d such frames were delivered' % (
-                                name, v, lo.get(name, 0), hi.get(name, 0)), 'recv-counter')
-                        break
+            lo, hi = self.recv_lo.get(obs['proto'], {}), self.recv_hi.get(obs['proto'], {})
+            for name in ('Opens', 'Notifications', 'Updates', 'Keepalives', 'RouteRefresh'):
+                v = obs['stats']['receive'].get(name, 0)
+                if not (lo.get(name, 0) <= v <= hi.get(name, 0)):
+                    if not any(o[0] == 'unmodelled' for o in outs):
+                        self.fail('C18', 'received counter %s=%d but %d..%d such frames were delivered' % (
+                            name, v, lo.get(name, 0), hi.get(name, 0)), 'recv-counter')
+                    break
         # ---------------- C05: every OPEN we write depends on the configuration only
         for o in outs:
             if o[0] == 'write' and bytes.fromhex(o[2])[18] == 1:
